@@ -1,11 +1,11 @@
 SPECIFICATION Spec
-CONSTANT MaxB = 200
-CONSTANT MaxMinP = 12
-CONSTANT MaxGases <- McMaxGasesThorough
-CONSTANT MaxBlocks = 5
-CONSTANT GovFull = TRUE
-CONSTANT EndOrder = "gov-then-fee"
-CONSTANT UnlimitedUsed = 20
+CONSTANT MaxB = 40
+CONSTANT MaxMinP = 5
+CONSTANT MaxGases <- McMaxGases
+CONSTANT MaxBlocks = 3
+CONSTANT GovFull = FALSE
+CONSTANT EndOrder = "fee-then-gov"
+CONSTANT UnlimitedUsed = 12
 INVARIANT NonNeg
 INVARIANT AtLeastMinAfterFirst
 PROPERTY TotalLaw
